@@ -8,8 +8,8 @@ its input space that `sign` emits and that wallets emit for CIP-8 (see "domain" 
 scheme and the 28-byte hash as *parameters* (`SigScheme`), never axioms.
 
 What `cose` does and the model reproduces:
-* `CoseMessage.decode`: `cbor2.loads` of `d2 ‖ bytes` (first item, trailing bytes ignored), a list of at least four
-  elements `[protected bstr, unprotected map, payload bstr, signature]`, surplus elements ignored;
+* `CoseMessage.decode`: `cbor2.loads` of `d2 ‖ bytes` (first item, trailing bytes ignored), a definite-length list of at
+  least four elements `[protected bstr, unprotected map, payload bstr, signature]`, surplus elements ignored;
 * the protected header is *decoded and later re-encoded* (`phdr_encoded = cbor2.dumps(self._phdr)`): the bytes
   that enter `Sig_structure` on the verifying side are the re-encoding, not the received bytes;
 * `Sig_structure = ["Signature1", protected bstr, external_aad = h'', payload]`, `cbor2.dumps`;
@@ -134,9 +134,10 @@ def asBytes : Item → Option Bytes
   | .bytesChunked cs => some cs.flatten
   | _ => none
 
+/-- `isinstance(cose_obj, list)`: under pycardano's decoder patch an indefinite-length array arrives as an
+`IndefiniteList`, which is not a `list` (`TypeError`) -/
 def arrayElems : Item → Option (List Item)
   | .array xs => some xs
-  | .arrayIndef xs => some xs
   | _ => none
 
 def parseFuel (bs : Bytes) : Nat := 2 * bs.length + 8
